@@ -138,6 +138,51 @@ func tyNodes(t *ref.Ty, f func(*ref.Ty)) {
 	}
 }
 
+// BinderMutants enumerates only the edits that rename one binding occurrence (receive, split, shift,
+// cut, case branch) to another identifier of the program: the collision-seeking subset of Mutants.
+func BinderMutants(p *ref.Program) []Mutation {
+	var out []Mutation
+	ids, _ := identPool(p)
+	nT := countTerms(p)
+	for n := 0; n < nT; n++ {
+		orig := nthTerm(p, n)
+		type slot struct {
+			get func(t *ref.Tm) *string
+			cur string
+		}
+		var slots []slot
+		switch orig.K {
+		case ref.TRecv, ref.TSplit:
+			slots = append(slots, slot{func(t *ref.Tm) *string { return &t.Y }, orig.Y}, slot{func(t *ref.Tm) *string { return &t.Z }, orig.Z})
+		case ref.TShift:
+			slots = append(slots, slot{func(t *ref.Tm) *string { return &t.Y }, orig.Y})
+		case ref.TNew:
+			slots = append(slots, slot{func(t *ref.Tm) *string { return &t.X }, orig.X})
+		}
+		for _, sl := range slots {
+			for _, id := range ids {
+				if id == sl.cur || id == "self" {
+					continue
+				}
+				q := p.Copy()
+				*sl.get(nthTerm(q, n)) = id
+				out = append(out, Mutation{"binder " + sl.cur + "->" + id, q})
+			}
+		}
+		for bi, b := range orig.Branches {
+			for _, id := range ids {
+				if id == b.Var || id == "self" {
+					continue
+				}
+				q := p.Copy()
+				nthTerm(q, n).Branches[bi].Var = id
+				out = append(out, Mutation{"branch binder " + b.Var + "->" + id, q})
+			}
+		}
+	}
+	return out
+}
+
 // Mutants enumerates all single edits of p (deterministic order).
 func Mutants(p *ref.Program) []Mutation {
 	var out []Mutation
